@@ -1128,10 +1128,12 @@ def run(chk, F):
     tabs = run_r2(r2, F, c, D)
     run_r1(r1, F, c, D, tabs)
     run_r3(r3, c)
+    from rules import c18_wire
+    c18_wire.run_wire(chk, F, rid="C18.R4")
     chk.assumptions += [
         "bincode's own Encode/Decode impls and its derive are trusted (C18 decides symmetry of what the repository "
         "writes, not decode(encode(p)) == p over all programs)",
         "operand signatures are over encoding classes {byte, varint, fixed32, counted list}; the numeric meaning of "
         "jump distances and const-pool indices is not decided here",
-        "C18.R4 (Rust<->Dora wire codecs) is decided by a separate thorough-tier rule",
+        "C18.R4 (Rust<->Dora wire codecs): signature trees are compared structurally; the byteorder crate is trusted",
     ]
